@@ -8,7 +8,7 @@ C13 — executable model of the rate change, as the code is written now:
 * `reamber/base/MapSet.py`    `MapSet.rate` = deepcopy; `[m.rate(by) for m in copy.maps]`;
 * `reamber/osu/OsuMap.py`     `OsuMap.rate` = `Map.rate`, then `samples.offset /= by`, `preview_time /= by`;
 * `reamber/sm/SMMapSet.py`    `SMMapSet.rate` = `MapSet.rate`, then `sample_start /= by`,
-                              `sample_length /= by`, `offset /= by`.
+                              `sample_length /= by`, and `offset /= by` unless `offset is None`.
 
 pandas is modelled as lists of rows (DESIGN §5 K2): a frame is a list of column names and a list of rows
 of cells.  Row labels and dtypes are not modelled (the property does not name them: stacking renumbers the
@@ -200,7 +200,7 @@ def rateSet (k : SetKind) (g : Game) (r : Rat) (s : MapSet) : Except Err MapSet 
     if r = 0 then .error .nonfinite      -- python float division
     let ss ← divOpt r s1.sampleStart
     let sl ← divOpt r s1.sampleLength
-    let off ← divOpt r s1.offset
-    .ok { s1 with sampleStart := some ss, sampleLength := some sl, offset := some off }
+    -- `if sms.offset is not None: sms.offset /= by`  (an unset file offset stays unset)
+    .ok { s1 with sampleStart := some ss, sampleLength := some sl, offset := s1.offset.map (· / r) }
 
 end Reamber.Rate
